@@ -3,6 +3,7 @@ package c20
 import (
 	"context"
 	"crypto/sha256"
+	"database/sql"
 	"encoding/hex"
 	"fmt"
 	"regexp"
@@ -19,6 +20,7 @@ import (
 	"github.com/hashicorp/hcl/v2/hclparse"
 
 	"verifharness/lib/dmodel"
+	"verifharness/lib/fakemysql"
 )
 
 // api bundles the public, package-level entry points of one dialect. All of them are the shared
@@ -52,6 +54,45 @@ var apis = map[dmodel.Dialect]*api{
 		evalOne: func(b []byte, v any) error { return sqlite.EvalHCLBytes(b, v, nil) }, evalr: sqlite.EvalHCL,
 		scan: new(sqlite.Driver).ScanStmts, registry: sqlite.TypeRegistry, format: sqlite.FormatType, parse: sqlite.ParseType,
 	},
+}
+
+// flavourAPIs are the CONNECTED MySQL drivers of the TiDB and MariaDB flavours: mysql.Open on a fake
+// connection that only answers the version query installs the flavour's differ and planner (TiDB has
+// its own planner in sql/mysql/tidb.go). One shared driver per flavour, like the Default* values.
+var flavourAPIs = map[string]*api{}
+
+func init() {
+	for _, fl := range []string{"tidb", "mariadb"} {
+		db, err := sql.Open(fakemysql.DriverName, fakemysql.Versions[fl])
+		if err != nil {
+			panic(err)
+		}
+		drv, err := mysql.Open(db)
+		if err != nil {
+			panic(fmt.Sprintf("c20: mysql.Open(%s): %v", fl, err))
+		}
+		a := *apis[dmodel.MySQL]
+		a.diff, a.plan = drv, drv
+		flavourAPIs[fl] = &a
+	}
+}
+
+// apiFor returns the entry points of a dialect (flavour "" = the package-level Default* values).
+func apiFor(d dmodel.Dialect, flavour string) *api {
+	if flavour != "" {
+		return flavourAPIs[flavour]
+	}
+	return apis[d]
+}
+
+func (in *Input) api() *api { return apiFor(in.Dialect, in.Flavour) }
+
+// dkey is the dialect part of finding keys and counters: mysql, mysql-tidb, mysql-mariadb, …
+func dkey(d dmodel.Dialect, flavour string) string {
+	if flavour != "" {
+		return string(d) + "-" + flavour
+	}
+	return string(d)
 }
 
 // HFile is one file of a (possibly multi-file) HCL source.
@@ -336,7 +377,7 @@ func (in *Input) hasSource() bool {
 // evaluator: a single document through EvalHCLBytes, several files through ONE hclparse.Parser handed
 // to EvalHCL (what the CLI does for a schema directory / several file:// URLs). nil, nil: no source.
 func (in *Input) evalSide(side int) (*schema.Realm, error) {
-	a := apis[in.Dialect]
+	a := in.api()
 	doc, files := in.RawFrom, in.FilesFrom
 	if side == 1 {
 		doc, files = in.RawTo, in.FilesTo
@@ -361,7 +402,7 @@ func rawErr(in *Input) error {
 }
 
 func diffPlan(in *Input) (changes []schema.Change, plan *migrate.Plan, err error) {
-	a := apis[in.Dialect]
+	a := in.api()
 	if err := rawErr(in); err != nil {
 		return nil, nil, fmt.Errorf("eval: %w", err)
 	}
@@ -394,7 +435,7 @@ func diffPlan(in *Input) (changes []schema.Change, plan *migrate.Plan, err error
 // refused the same way every time.
 func Outputs(in *Input) map[string][]byte {
 	out := map[string][]byte{}
-	a := apis[in.Dialect]
+	a := in.api()
 	if err := rawErr(in); err != nil {
 		// the document is rejected: that (and how) is the output
 		out["error.eval"] = []byte(err.Error())
